@@ -240,6 +240,19 @@ def pie_cases(ctx, quick):
                     abstract = abstract_items(version, resp, base_items, True)
                     oracle(ctx, op, version, 'mangled-' + mlabel, False, abstract, None, out,
                            witness={'response_hex': resp.response_bytes.hex()})
+                    sok, swhy = strictly_decodable(resp.response_bytes)
+                    if not sok and out[0] == 'return' and ' bytes, ' in swhy and 'left' in swhy:
+                        # A flipped LENGTH field makes the last structure claim more bytes than the message holds; PyKMIP's
+                        # BytearrayStream.read hands over what is there and the decode goes through with every value intact.
+                        # Observed on the unchanged tree, counted, not demanded by this check (lenient structure lengths are
+                        # the codec's business: C01/C02); the data returned is exactly the data carried.
+                        ctx.count('pie.mangled-%s.length-overrun-tolerated.return' % mlabel)
+                    elif not sok and out[0] == 'return':
+                        # independent notion of decodable (not PyKMIP's own decoder)
+                        ctx.violation({'client': 'pie', 'op': op.name, 'response': 'not-strictly-decodable', 'what': 'returned-data'},
+                                      {'method': op.name, 'kmip_version': version.name, 'corruption': mlabel, 'why_undecodable': swhy,
+                                       'response_hex': resp.response_bytes.hex(), 'observed': D.outcome_plain(out)},
+                                      '%s returned data although the response cannot be decoded by the independent strict parser (%s)' % (op.name, swhy))
                     if op.name == 'get' and abstract and abstract[0]['status'] == 0 and abstract[0]['payload'] is not None:
                         # a corrupted-yet-decodable managed object: whether the Pie object model can represent it
                         # (ObjectFactory.convert / object validation) is C05's subject, not modelled here
@@ -687,6 +700,131 @@ def server_cases(ctx, quick):
     return cases, meta
 
 
+# ---------------------------------------------------------------------- corrupted VALUE bytes in well-formed structure
+import ttlvparse
+
+
+def leaves(bs, off=0, end=None, out=None):
+    """[(value offset, type, length)] of every primitive item of a TTLV byte string (own walk, by the specification)."""
+    out = [] if out is None else out
+    end = len(bs) if end is None else end
+    while off + 8 <= end:
+        ty = bs[off + 3]
+        ln = int.from_bytes(bs[off + 4:off + 8], 'big')
+        if ty == 1:
+            leaves(bs, off + 8, off + 8 + ln, out)
+        else:
+            out.append((off + 8, ty, ln))
+        off += 8 + ln + (-ln) % 8
+    return out
+
+
+def text_items_of(item, out=None):
+    out = [] if out is None else out
+    if item['type'] == 1:
+        for c in item['value']:
+            text_items_of(c, out)
+    elif item['type'] == 7:
+        out.append(item['value'])
+    return out
+
+
+def strictly_decodable(bs):
+    """Independent notion of 'this response can be decoded': exactly one well-formed TTLV item (harness/ttlvparse.py:
+    types, fixed lengths, zero padding, Boolean 0/1, nothing trailing) whose Text Strings are valid UTF-8 (strict:
+    no stray/continuation/truncated/overlong/surrogate forms - CPython's strict decoder)."""
+    try:
+        item, rest = ttlvparse.parse(bytes(bs))
+    except ttlvparse.Malformed as e:
+        return False, str(e)
+    if rest:
+        return False, 'trailing bytes'
+    for t in text_items_of(item):
+        try:
+            t.decode('utf-8', 'strict')
+        except UnicodeDecodeError as e:
+            return False, 'text %r is not UTF-8: %s' % (t, e.reason)
+    return True, ''
+
+
+def value_corruptions(frame, rng, per_kind=2):
+    """[(label, corrupted frame)]: single VALUE bytes (or padding bytes) changed, every header/length untouched."""
+    out = []
+    lv = leaves(frame)
+    texts = [(o, n) for o, t, n in lv if t == 7 and n > 0]
+    rng.shuffle(texts)
+
+    def put(o, bs_):
+        return frame[:o] + bytes(bs_) + frame[o + len(bs_):]
+    for o, n in texts[:max(1, per_kind + 1)]:
+        k = rng.randrange(n)
+        out.append(('text-ff', put(o + k, [0xFF])))
+        out.append(('text-fe', put(o + rng.randrange(n), [0xFE])))
+        out.append(('text-stray-continuation', put(o + rng.randrange(n), [0x80])))
+        out.append(('text-truncated-lead', put(o + n - 1, [rng.choice([0xC3, 0xE2, 0xF0])])))
+        out.append(('text-latin1', put(o + rng.randrange(n), [0xE9]) if n == 1 or True else None))
+        if n >= 2:
+            out.append(('text-overlong', put(o + rng.randrange(n - 1), [0xC0, 0xAF])))
+        if n >= 3:
+            out.append(('text-surrogate', put(o + rng.randrange(n - 2), [0xED, 0xA0, 0x80])))
+    bools = [(o, n) for o, t, n in lv if t == 6]
+    for o, n in bools[:per_kind]:
+        out.append(('boolean-2', put(o + 7, [2])))
+        out.append(('boolean-high-byte', put(o, [1])))
+    padded = [(o, t, n) for o, t, n in lv if n % 8]
+    rng.shuffle(padded)
+    for o, t, n in padded[:per_kind + 1]:
+        pad = (-n) % 8
+        out.append(('padding-type%d' % t, put(o + n + rng.randrange(pad), [rng.choice([1, 0x20, 0xFF])])))
+    return out
+
+
+def corrupt_value_cases(ctx, quick):
+    rng = ctx.subrng('valuebytes')
+    cases, meta = [], []
+    for op in D.OPS:
+        for version in D.VERSIONS:
+            if op.min_version is not None and version < op.min_version:
+                continue
+            for label in ('success', 'failure'):
+                for attempt in range(8):
+                    kwargs = op.args(rng, version)
+                    if label == 'success':
+                        items = [Item(RS.SUCCESS, payload=op.payload(rng, version))]
+                    else:
+                        items = [Item(RS.OPERATION_FAILED, rng.choice(list(RR)), D.gen_text(rng, 3, 24))]
+                    base, resp, sock = scripted_call(op, version, kwargs, items=items)
+                    if sock.sent and resp.request is not None:
+                        break
+                else:
+                    continue
+                frame = resp.response_bytes
+                ok, why = strictly_decodable(frame)
+                if not ok:
+                    raise D.HarnessError('the uncorrupted scripted response is not strictly decodable: ' + why)
+                for clabel, bad in value_corruptions(frame, rng, 1 if quick else 3):
+                    if bad == frame:
+                        continue
+                    ok, why = strictly_decodable(bad)
+                    out, _, _ = scripted_call(op, version, kwargs, raw=bad)
+                    ctx.count('valuebytes.%s.%s.%s' % (clabel, 'decodable' if ok else 'undecodable',
+                                                      out[0] if out[0] != 'other' else 'raises'))
+                    ctx.case_seen(('valuebytes', op.name, version.name, label, clabel, bad), nontrivial=True)
+                    if ok:
+                        continue            # the corruption happened to produce another well-formed response
+                    w = {'client': 'ProxyKmipClient', 'method': op.name, 'kmip_version': version.name, 'corruption': clabel,
+                         'why_undecodable': why, 'response_hex': bad.hex(), 'uncorrupted_response_hex': frame.hex(),
+                         'observed': D.outcome_plain(out)}
+                    if out[0] != 'other':
+                        ctx.violation({'client': 'pie', 'op': op.name, 'response': 'undecodable-value-bytes', 'corruption': clabel,
+                                       'what': 'returned-data' if out[0] == 'return' else 'operation-failure-from-undecodable'}, w,
+                                      '%s %s although the response cannot be decoded (%s: %s)' % (
+                                          op.name, 'returned data' if out[0] == 'return' else 'raised an operation failure', clabel, why))
+                    cases.append('(CPie %s Undecodable %s)' % (op.model, D.outcome_coq(out)))
+                    meta.append((op.name, version.name, label, clabel, D.outcome_plain(out), bad.hex()))
+    return cases, meta
+
+
 # ---------------------------------------------------------------------- request envelope
 KVER = {KV.KMIP_1_0: 'Request.V10', KV.KMIP_1_1: 'Request.V11', KV.KMIP_1_2: 'Request.V12', KV.KMIP_1_3: 'Request.V13',
         KV.KMIP_1_4: 'Request.V14', KV.KMIP_2_0: 'Request.V20'}
@@ -786,6 +924,14 @@ def run(ctx):
     for i in bad[:20]:
         ctx.log('proxy disagreement', pmeta[i], pcases[i][:700])
         ctx.disagreement('proxy', {'case': pmeta[i], 'coq': pcases[i][:600]})
+    vcases, vmeta = corrupt_value_cases(ctx, quick)
+    bad = ctx.run_cases('valuebytes', HEADER, vcases, 'check_ccase', shard=1000,
+                        what='interpret o Undecodable = RaiseOther vs ProxyKmipClient on responses whose structure is intact but whose '
+                             'value bytes are not decodable (invalid UTF-8, Boolean not 0/1, non-zero padding), judged by an independent '
+                             'strict parser')
+    for i in bad[:20]:
+        ctx.log('valuebytes disagreement', vmeta[i][:5])
+        ctx.disagreement('valuebytes', {'case': vmeta[i]})
     rcases, rmeta = request_cases(ctx, quick)
     bad = ctx.run_cases('requests', HEADER, rcases, 'check_ccase', shard=40,
                         what='Request.enc_request / dec_request vs the bytes ProxyKmipClient emits (envelope; payload body opaque)')
@@ -853,6 +999,14 @@ def replay(ctx, rp):
                 break
         m = D.decode_response(version, frame)
         abstract = [D.ritem_of_batch_item(bi) for bi in m.batch_items] if m is not None else None
+        sok, swhy = strictly_decodable(frame)
+        if not sok:
+            ctx.log('the recorded response is not decodable by the independent strict parser:', swhy)
+            if out[0] != 'other':
+                ctx.violation({'client': 'pie', 'op': op.name, 'response': 'undecodable-value-bytes',
+                               'what': 'returned-data' if out[0] == 'return' else 'operation-failure-from-undecodable'}, dict(inp),
+                              rp.get('what', 'the client did not raise for an undecodable response'))
+            return ctx.finish()
         exp = None
         legal = structurally_legal(op, abstract)
         if legal and abstract[0]['status'] == 0:
